@@ -324,3 +324,39 @@ M("C17", "mask-not-reversed", "guardrails.py", "            unmasked_guard_confi
 M("C17", "key-length-range", "guardrails.py", "    for keylen in range(2, 257):", "    for keylen in range(2, 256):", "C17.R5")
 M("C17", "checksum-weights", "guardrails.py", "        n = (n + (data[i] & 0xFF) * (i % 3 + 1)) % 99999999", "        n = (n + (data[i] & 0xFF) * (i % 3)) % 99999999", "C17.R5")
 T("C17", "twin-comment", "guardrails.py", "            checksum = payload_checksum(unguarded) + 1", "            checksum = 1 + payload_checksum(unguarded)")
+
+# =============================================================================== C18
+M("C18", "struct-field-dropped", "pe.py", "    DWORD                Win32VersionValue;\n    DWORD                SizeOfImage;\n    DWORD                SizeOfHeaders;\n    DWORD                CheckSum;\n    WORD                 Subsystem;\n    WORD                 DllCharacteristics;\n    DWORD                SizeOfStackReserve;", "    DWORD                SizeOfImage;\n    DWORD                SizeOfHeaders;\n    DWORD                CheckSum;\n    WORD                 Subsystem;\n    WORD                 DllCharacteristics;\n    DWORD                SizeOfStackReserve;", "C18.R1")
+M("C18", "machine-const", "pe.py", "#define IMAGE_FILE_MACHINE_AMD64    0x8664", "#define IMAGE_FILE_MACHINE_AMD64    0x8864", "C18.R1")
+M("C18", "file-header-without-plus4", "pe.py", "    fh.seek(mz.e_lfanew + mz_offset + 4)\n    image", "    fh.seek(mz.e_lfanew + mz_offset)\n    image", "C18.R2",
+  edits=[("pe.py", "        fh.seek(mz.e_lfanew + mz_offset + 4)\n        image = pestruct.IMAGE_FILE_HEADER(fh)", "        fh.seek(mz.e_lfanew + mz_offset)\n        image = pestruct.IMAGE_FILE_HEADER(fh)")])
+M("C18", "signature-skipped", "pe.py", "        signature = pestruct.uint32(fh).to_bytes(4, \"little\")\n        logger.debug(\"PE signature: %r\", signature)\n", "", "C18.R2")
+M("C18", "export-offset-uses-virtualsize", "pe.py", "            offset = export_dd.VirtualAddress - ds.VirtualAddress + ds.PointerToRawData + mz_offset", "            offset = export_dd.VirtualAddress - ds.VirtualAddress + ds.SizeOfRawData + mz_offset", "C18.R2")
+M("C18", "sections-fixed-count", "pe.py", "        sections = [pestruct.IMAGE_SECTION_HEADER(fh) for _ in range(image.NumberOfSections)]\n        ds = None", "        sections = [pestruct.IMAGE_SECTION_HEADER(fh) for _ in range(4)]\n        ds = None", "C18.R2")
+M("C18", "arch-swapped", "pe.py", "                if image.Machine == pestruct.IMAGE_FILE_MACHINE_AMD64:\n                    return \"x64\"\n                elif image.Machine == pestruct.IMAGE_FILE_MACHINE_I386:\n                    return \"x86\"", "                if image.Machine == pestruct.IMAGE_FILE_MACHINE_AMD64:\n                    return \"x86\"\n                elif image.Machine == pestruct.IMAGE_FILE_MACHINE_I386:\n                    return \"x64\"", "C18.R3")
+M("C18", "sibling-constraint-drift", "pe.py", "            if mz.e_lfanew > 0 and mz.e_lfanew < maxrange:\n                fh.seek(start_offset + offset + 4 + mz.e_lfanew)\n                image = pestruct.IMAGE_FILE_HEADER(fh)\n                if image.Machine == pestruct.IMAGE_FILE_MACHINE_AMD64:", "            if mz.e_lfanew > 0 and mz.e_lfanew <= maxrange:\n                fh.seek(start_offset + offset + 4 + mz.e_lfanew)\n                image = pestruct.IMAGE_FILE_HEADER(fh)\n                if image.Machine == pestruct.IMAGE_FILE_MACHINE_AMD64:", "C18.R3")
+M("C18", "table-row-out-of-order", "version.py", "    0x5F94C216: \"Cobalt Strike 4.2 (Nov 06, 2020)\",", "    0x5F94C216: \"Cobalt Strike 4.3 (Mar 03, 2021)\",", "C18.R4")
+M("C18", "table-bad-date", "version.py", "    74: \"Cobalt Strike 4.7 (Aug 17, 2022)\",", "    74: \"Cobalt Strike 4.7 (Aug 32, 2022)\",", "C18.R4")
+M("C18", "enum-table-regress", "version.py", "    59: \"Cobalt Strike 4.2 (Nov 06, 2020)\",", "    59: \"Cobalt Strike 4.0 (Dec 05, 2019)\",", "C18.R4")
+M("C18", "prefer-setting-index", "beacon.py", "        if self.pe_export_stamp:\n            return BeaconVersion.from_pe_export_stamp(self.pe_export_stamp)\n        return BeaconVersion.from_max_setting_enum(self.max_setting_enum)", "        if self.settings_tuple:\n            return BeaconVersion.from_max_setting_enum(self.max_setting_enum)\n        return BeaconVersion.from_pe_export_stamp(self.pe_export_stamp)", "C18.R5")
+M("C18", "lookup-wrong-table", "version.py", "        return BeaconVersion(MAX_ENUM_TO_VERSION.get(enum, \"Unknown\"))", "        return BeaconVersion(PE_EXPORT_STAMP_TO_VERSION.get(enum, \"Unknown\"))", "C18.R5")
+M("C18", "append-without-headers", "pe.py", "        size = optional_header.SizeOfHeaders\n", "        size = 0\n", "C18.R6")
+T("C18", "twin-new-table-row", "version.py", "    0x674E0D17: \"Cobalt Strike 4.10.1 (Dec 10, 2024)\",", "    0x674E0D17: \"Cobalt Strike 4.10.1 (Dec 10, 2024)\",\n    0x67D00000: \"Cobalt Strike 4.11 (Mar 17, 2025)\",")
+
+# =============================================================================== C20
+M("C20", "xor-identity-on-first-zero", "utils.py", "    if sum(key) == 0:\n        return data", "    if not key or key[0] == 0:\n        return data", "C20.R1")
+M("C20", "xor-size-of-key", "utils.py", "    return int.to_bytes(int.from_bytes(data, \"little\") ^ int.from_bytes(key, \"little\"), size, \"little\")", "    return int.to_bytes(int.from_bytes(data, \"little\") ^ int.from_bytes(key, \"little\"), len(key), \"little\")", "C20.R1")
+M("C20", "xor-key-not-cut", "utils.py", "    key = key[:size]\n", "", "C20.R1")
+M("C20", "xor-mixed-endian", "utils.py", "int.from_bytes(key, \"little\"), size, \"little\")", "int.from_bytes(key, \"big\"), size, \"little\")", "C20.R1")
+M("C20", "u32be-no-byteorder", "utils.py", "u32be = partial(unpack, size=4, byteorder=\"big\")", "u32be = partial(unpack, size=4)", "C20.R2")
+M("C20", "p16-size", "utils.py", "p16 = partial(pack, size=2)", "p16 = partial(pack, size=4)", "C20.R2")
+M("C20", "stager-constants-swapped", "utils.py", "    return checksum8(uri) == 92", "    return checksum8(uri) == 93", "C20.R3")
+M("C20", "x64-no-anchor", "utils.py", "re.match(\"^/[A-Za-z0-9]{4}$\", uri)", "re.match(\"^/[A-Za-z0-9]{4}\", uri)", "C20.R3")
+M("C20", "checksum-mod-255", "utils.py", "    return sum(map(ord, text)) % 256", "    return sum(map(ord, text)) % 255", "C20.R3")
+M("C20", "return-before-classifier", "utils.py", "        uri = \"/\" + \"\".join(random.choice(chars) for _ in range(length))\n        if is_stager(uri):\n            return uri", "        uri = \"/\" + \"\".join(random.choice(chars) for _ in range(length))\n        if is_stager(uri) or length > 8:\n            return uri", "C20.R4")
+M("C20", "staged-gate-removed", "pcap.py", "            if not is_stager:\n                return None\n", "", "C20.R5")
+M("C20", "staged-flag-default-true", "pcap.py", "            elif utils.is_stager_x64(uri):\n                is_stager = True", "            elif utils.is_stager_x64(uri):\n                is_stager = True\n            elif len(uri) == 5:\n                is_stager = True", "C20.R5")
+M("C20", "netbios-nibbles-swapped", "utils.py", "        barray.append(a)\n        barray.append(b)", "        barray.append(b)\n        barray.append(a)", "C20.R6")
+M("C20", "netbios-decode-shift", "utils.py", "        a = (data[i] - offset) << 4", "        a = (data[i] - offset) << 3", "C20.R6")
+T("C20", "twin-decoder-or", "utils.py", "        barray.append(a + b)", "        barray.append(a | b)")
+T("C20", "twin-fullmatch", "utils.py", "re.match(\"^/[A-Za-z0-9]{4}$\", uri)", "re.fullmatch(\"/[A-Za-z0-9]{4}\", uri)")
